@@ -23,10 +23,19 @@ NOKIND = 17328
 
 
 def transitions(row):
+    """The kind changes of a universe pair, fine enough to tell failing inputs apart: for a directory, whether it has
+    an entry below it (old side: before, new side: after) - 'dir(full)>file' fails on the unchanged tree, 'dir(empty)>file'
+    on its own does not; the path is part of the token because the commit phases treat 'd' (which may hold 'd/x') and
+    the plain entries differently."""
     s = set()
     for p in ("a", "b", "d", "d/x"):
         o, n = row["old"][p]["k"], row["new"][p]["k"]
         if o != "none" and n != "none" and o != n:
+            if p == "d":
+                if o == "dir":
+                    o += "(full)" if row["old"]["d/x"]["k"] != "none" else "(empty)"
+                if n == "dir":
+                    n += "(full)" if row["new"]["d/x"]["k"] != "none" else "(empty)"
             s.add(o + ">" + n)
     return "+".join(sorted(s))
 
@@ -59,12 +68,15 @@ def run(tier):
         # thorough: the whole universe
         if tier == "quick":
             plans = [(["c02", "-mode", "model", "-subset", "nokind", "-sample=false", "-reps", "4"], NOKIND, "nokind"),
-                     (["c02", "-mode", "model", "-subset", "kind", "-reps", "3"], 600, "kind")]
+                     # (every 75th kind-change pair: a FIXED subset, so that the number of failing pairs per class can be
+                     #  compared with what the known findings list for it)
+                     (["c02", "-mode", "model", "-subset", "kind", "-sample=false", "-stride", "75", "-reps", "4"], 603, "kind")]
         else:
             plans = [(["c02", "-mode", "model", "-sample=false", "-reps", "4"], NPAIRS, "model")]
         total = outcomes = explained = kc = multi = 0
         unexplained_nokind = 0
         classes = collections.Counter()
+        examples = {}
         shard_results = []
         for args, n, prefix in plans:
             shard_results += pairs.run_shards(binary, d, args, n, "Trace_Overlay", "Trace_Overlay.cfg", prefix, tlc_workers=2,
@@ -99,11 +111,29 @@ def run(tier):
                     tr = transitions(row)
                     shape = {"clauses": clauses, "kind_change": bool(row["kindchange"]), "transitions": tr, "mode": mode if bad else "n/a"}
                     classes[(tr, mode)] += 1
+                    if row["kindchange"]:
+                        examples.setdefault("%s|%s" % (tr, mode), "%s old=%s new=%s -> %s" % (row["desc"], compact(row["old"]), compact(row["new"]), [(compact(o["final"]), o["err"][:90]) for o in bad[:1]]))
                     run.violation(shape, {"pair": row["desc"], "old": row["old"], "new": row["new"], "outcomes": row["outcomes"], "precommit_untouched": row["precommit_untouched"]},
                                   "in-place apply violates %s on %s old=%s new=%s: %s" % (clauses, row["desc"], compact(row["old"]), compact(row["new"]),
                                                                                          [(compact(o["final"]), o["extra"], o["err"][:80]) for o in bad[:2]]))
             if total == cnt:
                 run.sample({"pair": rows[0]["desc"], "old": compact(rows[0]["old"]), "new": compact(rows[0]["new"]), "outcomes": [compact(o["final"]) for o in rows[0]["outcomes"]]})
+        # a known finding is a set of INPUTS, not a licence for its whole class: over the exhaustive universe the number of
+        # failing pairs per kind-change class is a fixed quantity (up to a handful of pairs whose outcome depends on map
+        # order); more failing pairs than the finding lists is a different violation of the same property
+        if True:
+            key = "universe_pairs_failing_for_these_transitions" if tier == "thorough" else "quick_subset_pairs_failing"
+            listed = {f["shape"]["transitions"]: f.get(key, 0) for f in vlib.load_findings().get("open", []) if f.get("property") == PROP and f.get("shape", {}).get("kind_change")}
+            per_tr = collections.Counter()
+            for (tr, mode), v in classes.items():
+                per_tr[tr] += v
+            for tr, v in sorted(per_tr.items()):
+                if listed.get(tr) is not None and v > listed[tr] + (5 if tier == "thorough" else 2):
+                    run.violation({"kind_change": True, "failing_pairs_beyond_the_known_finding": tr},
+                                  {"transitions": tr, "failing_pairs": v, "listed": listed[tr], "example": examples.get(tr + "|error") or examples.get(tr + "|silent")},
+                                  "in-place apply fails on %d pairs of the %s whose kind changes are '%s'; the known finding lists %d" % (v, "model universe" if tier == "thorough" else "fixed quick subset of it", tr, listed[tr]))
+        run.coverage["failing_kind_change_classes"] = {"%s|%s" % k: v for k, v in classes.items()}
+        run.coverage["failing_kind_change_examples"] = examples
         run.coverage["model_pairs_on_real_code"] = total
         run.coverage["exhaustive"] = (tier == "thorough")
         run.coverage["exhaustive_over_pairs_without_kind_change"] = True
